@@ -820,7 +820,9 @@ def run_C11(ctx, proof_ok):
     cases = load_corpus("C11") + [seqc.gen_seq_case(r, maxlen=budget(ctx.tier, 7, 12)) for _ in range(budget(ctx.tier, 150, 3000))]
     n2, dis2 = seqc.compare_sequence(cases, E)
     n3, dis3, dist3 = seqc.search_sharing(r, E, budget(ctx.tier, 120, 2500))
-    ctx.violations.extend(dis3)
+    n4, dis4 = seqc.compare_bind(lib.rng(1111), E, budget(ctx.tier, 300, 6000))
+    ctx.violations.extend(dis3 + dis4)
+    n3 = n3 + n4
     raised = collections.Counter()
     for d in dis1 + dis2:
         if d["kind"] == "sequence-raised":
@@ -1176,14 +1178,14 @@ EXTRA_MODULES = {
     "C01": ["EpgVerif.Tie.ApplySites"],
     "C02": ["EpgVerif.Tie.DiffSites", "EpgVerif.Props.C02Run", "EpgVerif.Props.C02Fam"],
     "C03": ["EpgVerif.Tie.DiffSites", "EpgVerif.Props.C03Run", "EpgVerif.Props.C03Gen", "EpgVerif.Props.C03E", "EpgVerif.Props.C03Prog", "EpgVerif.Props.C03Diag"],
-    "C04": ["EpgVerif.Tie.ShiftSites"],
-    "C05": ["EpgVerif.Tie.PhysSites", "EpgVerif.Props.C05Path"],
+    "C04": ["EpgVerif.Tie.ShiftSites", "EpgVerif.Props.C04Multi"],
+    "C05": ["EpgVerif.Tie.PhysSites", "EpgVerif.Props.C05Path", "EpgVerif.Props.C05Att"],
     "C06": ["EpgVerif.Tie.PhysSites", "EpgVerif.Tie.Exchange"],
     "C07": ["EpgVerif.Tie.ApplySites"],
     "C08": ["EpgVerif.Tie.ApplySites"],
     "C09": ["EpgVerif.Tie.PuritySites"],
     "C10": ["EpgVerif.Tie.ApplySites", "EpgVerif.Props.C10Second"],
-    "C11": ["EpgVerif.Tie.SeqSites", "EpgVerif.Props.C11Run"],
+    "C11": ["EpgVerif.Tie.SeqSites", "EpgVerif.Props.C11Run", "EpgVerif.Props.C11Bind"],
     "C12": ["EpgVerif.Tie.SimSites", "EpgVerif.Tie.Modify"],
     "C13": ["EpgVerif.Tie.ShiftSites", "EpgVerif.Props.C13Prune"],
     "C14": ["EpgVerif.Tie.ShiftSites", "EpgVerif.Props.C14Bound", "EpgVerif.Props.C14Parseval", "EpgVerif.Props.C14Tensor"],
